@@ -697,7 +697,7 @@ Qed.
 
 (* the tables are not empty (non-vacuity of the two side conditions) *)
 Example default_tables_nonempty :
-  map (fun lr : str * list (rule float) => length (snd lr)) (cf_rules default_config) = [20; 13] /\
+  map (fun lr : str * list (rule float) => length (snd lr)) (cf_rules default_config) = [20; 14] /\
   length (all_units default_config) = 33.
 Proof. vm_compute. split; reflexivity. Qed.
 
